@@ -35,9 +35,71 @@ func main() {
 		os.Exit(rc)
 	case "gen":
 		cmdGen(os.Args[2:])
+	case "pin-names":
+		cmdPinNames(os.Args[2:])
 	default:
 		fmt.Fprintln(os.Stderr, "unknown command", os.Args[1])
 		os.Exit(2)
+	}
+}
+
+// cmdPinNames writes `params (...)` and `returns (...)` into the header of every contract of the given packages that
+// does not carry them yet, from the names the code uses now.  From then on the contract owns those names and a
+// renamed parameter or named result in the code no longer detaches it.
+func cmdPinNames(args []string) {
+	for _, rel := range args {
+		pc, files, _, err := loadPkgContracts(repoDir, rel, relToImport(rel))
+		if err != nil {
+			fmt.Println("error:", err)
+			continue
+		}
+		if _, err := genOverlay(pc, files, filepath.Join(verifDir, "spec")); err != nil {
+			fmt.Println("error:", err)
+			continue
+		}
+		byFile := map[string][]*FuncContract{}
+		for _, fc := range pc.Funcs {
+			if !fc.Lemma && !fc.Unbound {
+				byFile[fc.File] = append(byFile[fc.File], fc)
+			}
+		}
+		for file, fcs := range byFile {
+			data, err := os.ReadFile(file)
+			if err != nil {
+				fmt.Println("error:", err)
+				continue
+			}
+			lines := strings.Split(string(data), "\n")
+			n := 0
+			for _, fc := range fcs {
+				l := lines[fc.Line-1]
+				names := fc.ParamNames[len(fc.Captures):]
+				add := ""
+				if !strings.Contains(l, " params ") && len(names) > 0 {
+					add += " params (" + strings.Join(names, ", ") + ")"
+				}
+				tail := ""
+				if !strings.Contains(l, " returns ") && len(fc.Results) > 0 {
+					tail = " returns (" + strings.Join(fc.Results, ", ") + ")"
+				}
+				if add == "" && tail == "" {
+					continue
+				}
+				// header order: func NAME params (...) captures (...) returns (...)
+				k := len(l)
+				for _, kw := range []string{" captures ", " returns "} {
+					if j := strings.Index(l, kw); j >= 0 && j < k {
+						k = j
+					}
+				}
+				lines[fc.Line-1] = strings.TrimRight(l[:k], " ") + add + l[k:] + tail
+				n++
+			}
+			if n > 0 {
+				os.WriteFile(file, []byte(strings.Join(lines, "\n")), 0o644)
+			}
+			fmt.Printf("%s: %d headers pinned\n", file, n)
+		}
 	}
 }
 
